@@ -280,24 +280,31 @@ class Parser:
             number = token
             if self.current().kind == TokenKind.RBRACE:
                 self.pos += 1
-                return RepeatExact(expr, int(number.value))
+                return RepeatExact(expr, self._number(number))
 
             self.eat(TokenKind.COMMA)
 
             if self.current().kind == TokenKind.RBRACE:
                 self.pos += 1
-                return RepeatMin(expr, int(number.value))
+                return RepeatMin(expr, self._number(number))
 
             stop = self.eat(TokenKind.NUMBER)
             self.eat(TokenKind.RBRACE)
-            return RepeatMinMax(expr, int(number.value), int(stop.value))
+            return RepeatMinMax(expr, self._number(number), self._number(stop))
 
         if kind == TokenKind.COMMA:
             number = self.eat(TokenKind.NUMBER)
             self.eat(TokenKind.RBRACE)
-            return RepeatMax(expr, int(number.value))
+            return RepeatMax(expr, self._number(number))
 
         raise PestGrammarSyntaxError("expected a number or a comma", token=token)
+
+    def _number(self, token: Token) -> int:
+        """Return the value of a repetition count (a `u32` in pest)."""
+        value = int(token.value)
+        if value > 0xFFFFFFFF:  # noqa: PLR2004
+            raise PestGrammarSyntaxError("number is too large", token=token)
+        return value
 
     def parse_peek_expression(self, tag: str | None) -> Expression:
         if self.current().kind != TokenKind.LBRACKET:
